@@ -254,7 +254,8 @@ func c14immutable(env *core.Env, wrapper bool) {
 					if c.Bool("backend.fault", 1, rate) {
 						env.Fault("backend-read-fails")
 						if c.Bool("backend.fault.coded", 1, 2) {
-							return ociregistry.ErrTooManyRequests
+							// (a rate limit, an access-control hiccup, a token that has just expired)
+							return []error{ociregistry.ErrTooManyRequests, ociregistry.ErrDenied, ociregistry.ErrUnauthorized}[c.Int("backend.fault.code", 3)]
 						}
 						return errors.New("backend unavailable")
 					}
